@@ -49,6 +49,28 @@ pub fn run(op: &str, a: &[&str]) -> Option<String> {
                 hex(&p.clone().to_partial().double().to_bytes())
             ),
         },
+        // stack machine over extended points: results are reused as operands in non-normalised representations
+        // (z != 1 after scalarmult_base / double / add), which single-operation ops never exercise
+        "ge.prog" => {
+            let mut st: Vec<Ge> = Vec::new();
+            for tok in a[0].split(';') {
+                let (c, rest) = tok.split_at(1);
+                match c {
+                    "b" => match pt(rest) { Some(g) => st.push(g), None => return Some("none".into()) },
+                    "m" => st.push(Ge::scalarmult_base(&sc(rest))),
+                    "+" => { let q = st.pop()?; let p = st.pop()?; st.push((&p + &q.to_cached()).to_full()) }
+                    "-" => { let q = st.pop()?; let p = st.pop()?; st.push((&p - &q.to_cached()).to_full()) }
+                    "d" => { let p = st.pop()?; st.push(p.double()) }
+                    "D" => { let p = st.pop()?; st.push(p.to_partial().double_full()) }
+                    "e" => { let p = st.pop()?; st.push(p.double_partial().double_full()) }
+                    "n" => { let p = st.pop()?; st.push(p.negate()) }
+                    "c" => { let p = st.last()?.clone(); st.push(p) }
+                    "x" => { let n = st.len(); if n < 2 { return Some("bad-args".into()) } st.swap(n - 1, n - 2) }
+                    _ => return Some("bad-args".into()),
+                }
+            }
+            match st.last() { Some(g) => hex(&g.to_bytes()), None => "bad-args".into() }
+        }
         "ge.negate" => match pt(a[0]) {
             None => "none".into(),
             Some(p) => hex(&p.negate().to_bytes()),
